@@ -55,6 +55,15 @@ func (w *c12world) signers(class string) []int {
 		return seqInts(1, w.q)
 	case "all":
 		return seqInts(1, w.n)
+	case "quorumrev": // the same signers, combined in descending order
+		ids := seqInts(1, w.q)
+		for i, j := 0, len(ids)-1; i < j; i, j = i+1, j-1 {
+			ids[i], ids[j] = ids[j], ids[i]
+		}
+		return ids
+	case "allrot": // ... in rotated order
+		ids := seqInts(1, w.n)
+		return append(ids[2:], ids[:2]...)
 	}
 	return nil
 }
